@@ -122,7 +122,7 @@ PROPS = {
     },
     "C10": {
         "groups": [{"name": "diode", "tags": "verif", "run": "^VH_C10_((waiter|poller)_(1x2|2x1)_s[12]_(fresh|steady)_(close|quiesce)|stuck_writer_.*)$", "flags": {"harness-timeout": 200, "max-paths": 150000, "witnesses": 1},
-                    "quick": {"preempt": 2, "run": "^VH_C10_(((waiter|poller)_(1x2|2x1)_s[12]_fresh|poller_1x2_s[12]_steady)_(close|quiesce)|stuck_writer_poller)$"}, "thorough": {"preempt": 3, "harness-timeout": 3000, "max-paths": 5000000}}],
+                    "quick": {"preempt": 2, "run": "^VH_C10_(((waiter|poller)_(1x2|2x1)_s[12]_fresh|poller_1x2_s[12]_steady|poller_1x3_s[12]_fresh)_(close|quiesce)|stuck_writer_poller)$"}, "thorough": {"preempt": 3, "harness-timeout": 3000, "max-paths": 5000000}}],
         "level": "model_checking", "msg_filter": "^C10", "engine_only_kinds": ["assert", "deadlock", "panic"], "witness_replays": {"quick": 1, "thorough": 1},
         "bounds": {"quick": "real diode.Writer in waiter and poller mode; (producers x writes) in {1x2, 2x1} x ring size {1,2} x start {fresh = as NewManyToOne leaves it (first lap), steady = arbitrary symbolic position >= size and < 2^62}; both phases (quiesce / Close); preemption bound 2 with sleep-set reduction; a wrapped writer that blocks forever with 2 producers x 2 writes",
                    "thorough": "adds 1x3, 2x2 and ring size 3, preemption bound 3",
@@ -178,7 +178,7 @@ PROPS = {
     "C13": {
         "groups": [
             {"name": "int", "tags": "verif", "run": "^VH_C13_(basic_step|compose)$", "flags": {"solver": "cvc5-int", "solver-timeout-ms": 120000}},
-            {"name": "bv", "tags": "verif", "run": "^VH_C13_(basic_edge|basic_atomic|burst_step|burst_history|level)$",
+            {"name": "bv", "tags": "verif", "run": "^VH_C13_(basic_edge|basic_atomic|burst_step|burst_history|level|gate)$",
              "quick": {"params": "history=3"}, "thorough": {"params": "history=5"}},
         ],
         "cross_solver": {"run": "^VH_C13_(basic_edge|burst_step|level)$", "group": "bv"},
